@@ -42,10 +42,24 @@ def main():
             if not ev:
                 raise RuntimeError('mask helper %s knows no members' % c.__qualname__)
             et = type(ev[0])
-            off = int(ev[0]) - (c.to_bitmask([ev[0]]).bit_length() - 1)
+            # offset: what most members say (a helper that misbehaves on some member must still get a table, so that
+            # the check can show the failing input); the private attribute only when behaviour says nothing
+            cands = []
             for v in ev:
-                if type(v) is not et or c.to_bitmask([v]) != 1 << (int(v) - off):
-                    raise RuntimeError('mask helper %s is not of the form 1 << (value - offset)' % c.__qualname__)
+                try:
+                    b = c.to_bitmask([v])
+                except Exception:
+                    continue
+                if b > 0 and b & (b - 1) == 0:
+                    cands.append(int(v) - (b.bit_length() - 1))
+            if cands:
+                off = max(set(cands), key=cands.count)
+            elif hasattr(c, '_enum_offset'):
+                off = int(c._enum_offset)
+            else:
+                raise RuntimeError('offset of mask helper %s cannot be determined' % c.__qualname__)
+            if any(type(v) is not et for v in ev):
+                raise RuntimeError('mask helper %s reports members of several enumerations' % c.__qualname__)
             ent['mask'] = {'offset': off, 'values': [[v.name, int(v)] for v in ev],
                            'enum': et.__module__ + ':' + et.__qualname__}
         out.append(ent)
